@@ -12,7 +12,8 @@
        InvalidData error (known class vcf-record-field-utf8-split-capacity-dependent);
      * the CR rule has no `start` test: is_eol && dst.ends_with('\r') -> dst.pop().
    Its final read_line is std's BufRead::read_line into the String (the appended bytes are
-   validated as a whole). *)
+   validated as a whole) and pops LF / CR off the whole buffer; SAM's read_line pops a CR only when
+   it was read by that call (/repo 3506cd5). *)
 From Coq Require Import List NArith Arith Bool.
 From NV Require Import Io.Source Io.BufReader Io.FastaScan Io.BedRead.
 From NV Require Text.TextBase Text.BedRec Fasta.Fastq.
@@ -32,7 +33,7 @@ Definition w_sam_read_record (d : list N) : TextBase.res nat * list N * list nat
     let '(dst2, n2, eol, src2) := w_read_field src1 dst1 in
     let ends2 := ends ++ [length dst2] in
     if eol then (TextBase.Ok (len + n2), dst2, ends2, src2)
-    else (TextBase.Ok (len + n2 + length (take_line LF src2)), w_tab_tail dst2 src2, ends2,
+    else (TextBase.Ok (len + n2 + length (take_line LF src2)), dst2 ++ strip_eol (take_line LF src2), ends2,
           skipn (length (take_line LF src2)) src2).
 
 (* VCF read_field on ASCII input (no validation failure possible): the CR is popped off the whole
@@ -89,8 +90,8 @@ Section DeliveredTab.
           match read_until rd cap LF fuel st2 with
           | (_, UNoFuel, st3) => (TextBase.Err TextBase.OutOfFuel, [], [], st3)
           | (raw, UOk, st3) =>
-              (TextBase.Ok (len + n2 + length raw),
-               match raw with [] => dst2 | _ => strip_eol (dst2 ++ raw) end, ends2, st3)
+              (* sam read_line after /repo 3506cd5: LF popped, then a CR only if it was read here *)
+              (TextBase.Ok (len + n2 + length raw), dst2 ++ strip_eol raw, ends2, st3)
           end
       end
     end.
